@@ -266,6 +266,8 @@ def run(ctx):
             s.loads.append({"kind": "d", "term": "fx", "local": True, "bar": b, "t0": Fr("0.5"), "v0": Fr(40), "t1": Fr("0.5"), "v1": Fr(40)})
             s.loads.append({"kind": "d", "term": "fy", "local": False, "bar": b, "t0": Fr(0), "v0": Fr(-30), "t1": Fr(1), "v1": Fr(-30)})
             s.loads.append({"kind": "d", "term": "mz", "local": True, "bar": b, "t0": Fr("0.25"), "v0": Fr(12), "t1": Fr("0.75"), "v1": Fr(-8)})
+        if i % 5 == 1:
+            s = G.with_unused_node(s, rng)
         scale = rng.choice(["0.25", "0.5", "1", "0.125", "2"])
         dscale = rng.choice(["0.5", "1", "0.25", "2"])
         dark = rng.random() < 0.5
@@ -323,7 +325,24 @@ def run(ctx):
             continue
         terms.append(case_term(o, parsed[1], events, scale, dscale))
         kept.append(rep)
-    ctx.log("%d structures plotted (scales, load scales, both themes); %d SVG documents parsed and checked" % (plots, len(terms)))
+    # histories at one path: a plot written over another plot is the plot of the last command
+    hist_runs = 0
+    for (text, scale, dscale, dark), o in list(zip(items, outs))[:3]:
+        if o.get("ParsePanic") or not o.get("Bars"):
+            continue
+        steps = [["plot", "--dark", "--scale", "2", "x.inkfem"], ["plot", "--scale", scale, "x.inkfem"], ["plot", "--dark", "x.inkfem"], ["plot", "--scale", "0.125", "x.inkfem"]]
+        hr = cli.run_history(ctx, steps, files={"x.inkfem": text}, name="c18h")
+        for k, (args, rk) in enumerate(zip(steps, hr)):
+            fresh = cli.run(ctx, args, files={"x.inkfem": text}, name="c18")
+            hist_runs += 2
+            a, b = rk.files.get("x.inkfem.svg"), fresh.files.get("x.inkfem.svg")
+            if rk.status != fresh.status or (b is not None and (a is None or sorted(a.split("\n")) != sorted(b.split("\n")))):
+                why = parse_svg(a or "")
+                ctx.violation("%s after %s at the same path does not leave the document a fresh run writes%s" % (
+                    " ".join(args), [" ".join(x) for x in steps[:k]], (": " + why) if isinstance(why, str) else ""), {"text": text, "history": steps[:k + 1]})
+                concrete += 1
+                break
+    ctx.log("%d structures plotted (scales, load scales, both themes); %d SVG documents parsed and checked; %d runs in plot-over-plot histories" % (plots, len(terms), hist_runs))
     validated, corr = 0, None
     if res["stage"] != "translate":
         nn, mism = S.run_stage(ctx, "S", terms, cases_v, shard=4)
